@@ -22,11 +22,21 @@ pub fn expand(input: &DeriveInput, trait_name: &str) -> TokenStream {
         Data::Struct(ref data_struct) => match data_struct.fields {
             Fields::Unnamed(ref fields) => (
                 quote! { #input_type #ty_generics },
-                tuple_content(input_type, &unnamed_to_vec(fields), &method_ident),
+                tuple_content(
+                    input_type,
+                    &unnamed_to_vec(fields),
+                    &trait_ident,
+                    &method_ident,
+                ),
             ),
             Fields::Named(ref fields) => (
                 quote! { #input_type #ty_generics },
-                struct_content(input_type, &named_to_vec(fields), &method_ident),
+                struct_content(
+                    input_type,
+                    &named_to_vec(fields),
+                    &trait_ident,
+                    &method_ident,
+                ),
             ),
             _ => panic!("Unit structs cannot use derive({trait_name})"),
         },
@@ -34,7 +44,7 @@ pub fn expand(input: &DeriveInput, trait_name: &str) -> TokenStream {
             quote! {
                 derive_more::core::result::Result<#input_type #ty_generics, derive_more::BinaryError>
             },
-            enum_content(input_type, data_enum, &method_ident),
+            enum_content(input_type, data_enum, &trait_ident, &method_ident),
         ),
 
         _ => panic!("Only structs and enums can use derive({trait_name})"),
@@ -60,19 +70,21 @@ pub fn expand(input: &DeriveInput, trait_name: &str) -> TokenStream {
 fn tuple_content<T: ToTokens>(
     input_type: &T,
     fields: &[&Field],
+    trait_ident: &Ident,
     method_ident: &Ident,
 ) -> TokenStream {
-    let exprs = tuple_exprs(fields, method_ident);
+    let exprs = tuple_exprs(fields, trait_ident, method_ident);
     quote! { #input_type(#(#exprs),*) }
 }
 
 fn struct_content(
     input_type: &Ident,
     fields: &[&Field],
+    trait_ident: &Ident,
     method_ident: &Ident,
 ) -> TokenStream {
     // It's safe to unwrap because struct fields always have an identifier
-    let exprs = struct_exprs(fields, method_ident);
+    let exprs = struct_exprs(fields, trait_ident, method_ident);
     let field_names = field_idents(fields);
 
     quote! { #input_type{#(#field_names: #exprs),*} }
@@ -82,10 +94,12 @@ fn struct_content(
 fn enum_content(
     input_type: &Ident,
     data_enum: &DataEnum,
+    trait_ident: &Ident,
     method_ident: &Ident,
 ) -> TokenStream {
     let mut matches = vec![];
-    let mut method_iter = iter::repeat(method_ident);
+    let method = quote! { derive_more::core::ops::#trait_ident::#method_ident };
+    let mut method_iter = iter::repeat(&method);
 
     for variant in &data_enum.variants {
         let subtype = &variant.ident;
@@ -103,7 +117,7 @@ fn enum_content(
                     (#subtype(#(#l_vars),*),
                      #subtype(#(#r_vars),*)) => {
                         derive_more::core::result::Result::Ok(
-                            #subtype(#(#l_vars.#method_iter(#r_vars)),*)
+                            #subtype(#(#method_iter(#l_vars, #r_vars)),*)
                         )
                     }
                 };
@@ -124,7 +138,7 @@ fn enum_content(
                     (#subtype{#(#field_names: #l_vars),*},
                      #subtype{#(#field_names: #r_vars),*}) => {
                         derive_more::core::result::Result::Ok(#subtype{
-                            #(#field_names: #l_vars.#method_iter(#r_vars)),*
+                            #(#field_names: #method_iter(#l_vars, #r_vars)),*
                         })
                     }
                 };
